@@ -198,8 +198,8 @@ Definition errk_eqb (a b : errk) : bool := (errk_code a =? errk_code b)%nat.
 Definition wgt_close (a b : wgt) : bool :=
   match a, b with
   | WConst x, WConst y => Qclose 0 tol x y
-  | WArr 0, WArr _ | WArr _, WArr 0 => true       (* tag 0: not modelled *)
-  | WArr i, WArr j => (i =? j)%nat
+  | WArr 0 _, WArr _ _ | WArr _ _, WArr 0 _ => true       (* tag 0: not modelled *)
+  | WArr i d, WArr j e => (i =? j)%nat && dt_eqb d e
   | _, _ => false
   end.
 Definition tspace_close (a b : tspace) : bool :=
